@@ -8,6 +8,10 @@ fn main() {
         std::process::exit(2);
     }
     let id = args[0].clone();
+    if id == "gen-cert" {
+        h3sim::e3::gen_cert(args.get(1).map(|s| s.as_str()).unwrap_or("/verif/sim/certs"));
+        return;
+    }
     let mut opt = Options {
         tier: match std::env::var("VERIF_TIER").ok().as_deref() {
             Some("thorough") => Tier::Thorough,
